@@ -350,6 +350,13 @@ func c06Recorded(e *Env) {
 				if st.Block().Dominates(b) {
 					dom = true
 				}
+				// accumulation in place inside a loop (x.DependsOnParams = append(x.DependsOnParams, …)): the
+				// return lies behind that loop
+				for _, h := range pf.Blocks {
+					if isLoopHeader(h) && h.Dominates(st.Block()) && reach(st.Block(), true)[h] && h.Dominates(b) {
+						dom = true
+					}
+				}
 			}
 			if !dom {
 				okAll, bad = false, ret.Pos()
